@@ -5,6 +5,7 @@ import SciVerif.Model.Components
 import SciVerif.Tie.ProcSem
 import SciVerif.Tie.RunSem
 import SciVerif.Model.Chan
+import SciVerif.Tie.C12Sem
 /-!
 Line-protocol driver (Tie B): one request per line on stdin (tab separated), one response line.
 It runs the *executable models*, instantiated with the semantics records Tie A regenerated from
@@ -392,6 +393,8 @@ def handle (line : String) : String :=
   | ["createtasks", ports] =>
     let ps := (if ports.isEmpty then [] else ports.splitOn ";").map fun p => if p == "-" then [] else parseNats p
     ";".intercalate ((Chan.createTasks 1000 ps).map fun t => ",".intercalate (t.map toString))
+  | ["racy.sites"] => ",".intercalate racySites
+  | ["discipline"] => s!"r1={r1};r2={r2};r4={r4};r5={r5};r6={r6}"
   | ["task.c01search"] =>
     match TaskSim.c01Search taskSem with
     | none => "none"
